@@ -62,7 +62,7 @@ PANIC_TABLE = {
     ("darling_core::error::Accumulator::errors", "panic"): dict(
         max=1, scope="runtime", guard=[r"is_some\(self\.0\)=False"], who="take-only-in-into-inner", why="Option::take only in into_inner(self)"),
     ("darling_core::error::Accumulator::into_inner", "panic"): dict(
-        max=1, scope="runtime", guard=[r"is_some\(.*take\(self\.0\)\)=False"], who="take-only-in-into-inner", why="Option::take only in into_inner(self)"),
+        max=1, scope="runtime", guard=[r"^is_some\(self\.0\)=False$"], who="take-only-in-into-inner", why="Option::take only in into_inner(self)"),
     ("<darling_core::error::Accumulator as core::ops::drop::Drop>::drop", "panic"): dict(
         max=2, scope="runtime", guard=[r"panicking\(\)=False", r"is_some\(self\.0\)=True"], why="the drop bomb itself; subject of the T rule"),
     ("<proc_macro2::Ident as darling_core::from_meta::KeyFromPath>::from_path", "index"): dict(
@@ -378,3 +378,31 @@ def buffers_only_pushed(ctx, rule):
                     ctx.ob(rule, g.key, "%s in template" % tk.text, ok,
                            "the buffer may only be `.push(..)`-ed, borrowed, handed over at the end or declared by a declaration generator; found `%s %s %s`: reassigning or re-declaring it drops items read from earlier list items / attributes" % (" ".join(str(x[1]) for x in prev), tk.text, " ".join(str(x[1]) for x in nxt)))
     ctx.floor(rule, "mentions of the cross-attribute buffers in templates", n, 6)
+
+
+def inherit_when_absent(ctx, rule_keep, rule_value, f, field, new_value_rx):
+    """`self.<field>` (an Option) is filled from the parent only when it is None, and kept otherwise,
+    whatever the spelling: `if x.is_none() { x = Some(v) }`, `x = x.or_else(|| Some(v))`,
+    `x = Some(match x.take() { Some(own) => own, None => v })`."""
+    from vlib import resalg
+    writes = ctx.find_field_assigns(f, field, 1)
+    keep_ok, new_ok, seen_new = True, True, False
+    detail = []
+    own = "self.%s" % field
+    IDENT = (own, "core::option::Option::Some{(%s as Some).0}" % own)
+    for blk, i, st in writes:
+        for d in ctx.pc_strs(f, blk) or [set()]:
+            for conds, v in resalg.expr_cases(ctx, f, st["r"]):
+                both = set(d) | set(conds)
+                t_, f_ = "is_some(%s)=True" % own in both, "is_some(%s)=False" % own in both
+                if t_ and f_:
+                    continue
+                detail.append((sorted(both), v[:120]))
+                if f_:
+                    seen_new = True
+                    if not re.search(new_value_rx, v):
+                        new_ok = False
+                elif v not in IDENT:
+                    keep_ok = False
+    ctx.ob(rule_keep, f.key, "self.%s kept when present" % field, keep_ok and bool(writes), "writes: %s" % detail)
+    ctx.ob(rule_value, f.key, "self.%s inherited when absent" % field, new_ok and seen_new, "writes: %s" % detail)
